@@ -250,6 +250,34 @@ CHECKS = {
         "level_note": "Single client plus the DB's background goroutines in this engine; concurrent writers and Close racing with calls are exercised by C10 (writers) and C18 (Close vs. reads). DisableCompactionBackoff is set.",
         "assumptions": ["a blocked state that is identical in two dumps 1.5 s apart and contains no runnable/sleeping goroutine will not resolve by itself"],
     },
+    "C05": {
+        "test": "TestC05", "level": "exploration", "engine": "conc",
+        "technique": "property-based generation of concurrent client programs, schedule stretching through verif yield points, linearizability checking of the recorded history with porcupine",
+        "quick": {"shards": 16, "n": 120, "timeout": 900, "gomaxprocs": [0, 1, 2, 4]},
+        "thorough": {"shards": 16, "n": 6000, "timeout": 3400, "gomaxprocs": [0, 1, 2, 4, 16]},
+        "floor": {"quick": 2000, "thorough": 50000},
+        "shrink": False,
+        "replay_runs": 300,
+        "rule": "rapid draws programs of 2-6 client goroutines x 8-40 operations over 2-6 keys: Put/Delete/batch Write over several keys (sizes straddling buffer rotation, Sync and NoWriteMerge toggles), explicit transactions, Get, GetSnapshot+full scan, NewIterator+full scan; tiny write buffer so that flushes, compactions and version installs happen during the run; GOMAXPROCS and a yield plan (probability per verif yield point: after a reader fixed its sequence number, between taking buffers and taking the version, between inserting a write group and publishing its sequence, after publishing, between manifest commit and dropping the frozen buffer, between transaction commit and sequence update, around the merge-protocol channel operations; Gosched or 1-200 us sleeps) are drawn; each program is run under 3 schedules. Every call is recorded with invocation/response timestamps; the history must be linearizable w.r.t. a KV model with atomic multi-key writes, point reads and cuts (a snapshot/iterator scan must equal the state at one instant inside the creating call) - decided by porcupine (8 s budget; timeout = inconclusive). "
+                "Non-trivial: a write overlaps a read or cut in real time and a buffer flush happened during the run; distinct = distinct (program, schedule index) fingerprints.",
+        "level_text": "Exploration: schedules are sampled, each observed history is judged by a complete linearizability checker.",
+        "level_note": "The harness does not own the Go scheduler: yield hooks and GOMAXPROCS variation widen the windows named by the property but do not enumerate interleavings. Failures are schedule-dependent: the replay file holds the program and the failing history, replay re-runs the program 300 times.",
+        "assumptions": ["values are unique per write, so porcupine's search is cheap", "timestamps from one monotonic clock"],
+    },
+    "C10": {
+        "test": "TestC10", "level": "exploration", "engine": "conc",
+        "technique": "property-based generation of concurrent writer programs with racing lock competitors; invariant checking over the write-path event trace (verif hook) joined with call results",
+        "quick": {"shards": 16, "n": 150, "timeout": 900, "gomaxprocs": [0, 1, 2, 4]},
+        "thorough": {"shards": 16, "n": 8000, "timeout": 3400, "gomaxprocs": [0, 1, 2, 4, 16]},
+        "floor": {"quick": 1000, "thorough": 30000},
+        "shrink": False,
+        "replay_runs": 200,
+        "rule": "rapid draws 2-12 concurrent writers x 3-25 writes (Put/Delete/batch; sizes from 0 to 300 KB around the 128 KiB merge limit and the free buffer space; Sync and NoWriteMerge flags), a racer competing for the write lock at a drawn point (Close, OpenTransaction+Discard, CompactRange, SetReadOnly), optionally a journal create/write/sync fault so that a whole group fails, a yield plan on the protocol's channel operations and GOMAXPROCS; 2 schedules per program. Trace invariants: between a lock acquisition and its release/hand-off no other acquisition; acknowledgements sent = writers merged; a refused (too large) writer ends the group with a hand-off and is exactly the next lock holder, otherwise the lock is released exactly once; at most one journal record and one publication per group. Results: every writer call returns within 40 s; a merged writer returns its leader's result; afterwards (after reopen if the racer closed or froze the DB) every acknowledged write is fully readable and every failed write is visible entirely or not at all. "
+                "Non-trivial: the trace has a group with >=2 members and a hand-off.",
+        "level_text": "Exploration with sampled rendezvous orders; the trace oracle is exact for the stated protocol.",
+        "level_note": "Event order is the order in which the hook's mutex was taken; emission points are placed so that causally ordered protocol steps are logged in causal order.",
+        "assumptions": [],
+    },
 }
 
 # Properties not claimed (reason); filled automatically with "not built yet" when absent.
